@@ -375,3 +375,20 @@ Example read_metadata_oneline_ex :
   read_metadata [s "author"; s "display"] [s "Note: this is text"] = ([], [s "Note: this is text"])
   /\ read_metadata [s "author"; s "display"] [s "Author: me"] = ([(s "author", [s "me"])], []).
 Proof. split; reflexivity. Qed.
+
+(* ---------- why every entity of a declaration needs its own copy of the comment ---------- *)
+(* scanning the body again is not the identity: a body whose first line has the shape `word: text`
+   would lose it (and, with FORD's in-place scan of a shared list, so would the other entities) *)
+Theorem meta_rescan_not_identity :
+  exists l m b, meta_preprocessor l = (m, b) /\ m <> [] /\ meta_preprocessor b <> ([], b).
+Proof.
+  exists [s "deprecated: true"; []; s "Caution: words"; s "more"],
+         [(s "deprecated", [s "true"])], [s "Caution: words"; s "more"].
+  split; [reflexivity|]. split; [discriminate|]. vm_compute. discriminate.
+Qed.
+
+(* it is the identity exactly when the body does not itself begin like a header *)
+Theorem meta_rescan_identity x r :
+  m_begin x = false -> is_blank x || m_end x = false -> m_meta x = None ->
+  meta_preprocessor (x :: r) = ([], x :: r).
+Proof. exact (meta_no_header x r). Qed.
